@@ -213,13 +213,18 @@ class Summ:
             (trues if v[2] else falses).append(bb)
         for f in falses:
             for t in trues + [o[0] for o in others]:
-                if not body.dominates(f, t) and body.reaches(t, f):
+                if not body.dominates(f, t) and body.reaches_acyclic(t, f):
                     raise Unanalysable("flag _%d of %s is reset after being set" % (local, body.path))
+        if others or any(not body.dominates(f, t) for f in falses for t in trues):
+            # definitions on alternative paths (not the initialise-then-set pattern): they must belong to one loop nest, i.e. be alternatives of one iteration
+            nests = set(tuple(body.loops_of(bb)) for bb in trues + falses + [o[0] for o in others])
+            if len(nests) > 1:
+                raise Unanalysable("flag _%d of %s is defined in different loop nests" % (local, body.path))
         # a boolean computed on one path and defaulted on the others (`if let .. { return cond } false`): each definition contributes under the
         # condition of its own path; two computed definitions may not overwrite each other
         for (b1, _v1) in others:
             for b2 in trues + [o[0] for o in others]:
-                if b1 != b2 and (body.reaches(b1, b2) or body.reaches(b2, b1)):
+                if b1 != b2 and (body.reaches_acyclic(b1, b2) or body.reaches_acyclic(b2, b1)):
                     raise Unanalysable("flag _%d of %s is assigned a computed value on overlapping paths" % (local, body.path))
         if others:
             r = B.Or(*([self.guard(body, bb) for bb in trues] + [B.And(self.guard(body, bb), self.bool_formula(body, v)) for (bb, v) in others]))
